@@ -191,6 +191,10 @@ func (s *Servant) Mixed(ctx context.Context, token string, first *VI.Pair, in *V
 	err = s.handle(ctx, "mixed", []interface{}{token, in, m}, []interface{}{first, second, third}, &ret)
 	return
 }
+func (s *Servant) Twins(ctx context.Context, first string, second string, third []int8, fourth []int8, joined *string) (ret int32, err error) {
+	err = s.handle(ctx, "twins", []interface{}{first, second, third, fourth}, []interface{}{joined}, &ret)
+	return
+}
 func (s *Servant) Opt(ctx context.Context, a *VT.OptScalars, b *VT.OptContainers) (ret VT.OptScalars, err error) {
 	err = s.handle(ctx, "opt", []interface{}{a}, []interface{}{b}, &ret)
 	return
@@ -253,6 +257,10 @@ func (ps *PlainServant) OutFirst(tokenOut *string, token string, x int32) (ret i
 }
 func (ps *PlainServant) Mixed(token string, first *VI.Pair, in *VT.Inner, second *[]int32, m map[string]VI.Pair, third *map[string]VI.Pair) (ret bool, err error) {
 	err = ps.handle("mixed", []interface{}{token, in, m}, []interface{}{first, second, third}, &ret)
+	return
+}
+func (ps *PlainServant) Twins(first string, second string, third []int8, fourth []int8, joined *string) (ret int32, err error) {
+	err = ps.handle("twins", []interface{}{first, second, third, fourth}, []interface{}{joined}, &ret)
 	return
 }
 func (ps *PlainServant) Opt(a *VT.OptScalars, b *VT.OptContainers) (ret VT.OptScalars, err error) {
